@@ -52,14 +52,21 @@ def validate(ctx: Ctx, module: str, rows: list, *, invariants, files: dict | Non
         t = tag(r)
         (kf_rows if t and any(k in t for k in known_keys) else main_rows).append(r)
     ok = True
+    allpath = None
+    if kf_rows:     # coverage claims index the unsplit table
+        allpath = ctx.tmp / f"all_{name}.ndjson"
+        write_ndjson(allpath, rows)
     for part, part_rows in (("", main_rows), ("kf", kf_rows)):
         if not part_rows:
             continue
         d = ctx.tmp / f"tbl_{name}{part}"
         d.mkdir(exist_ok=True)
         envv = {"TABLE": str(d / "table.ndjson")}
+        envv["ALLROWS"] = str(allpath) if allpath else envv["TABLE"]
         write_ndjson(d / "table.ndjson", part_rows)
         for en, items in (files or {}).items():
+            if part and en == "CLAIMS":
+                items = []          # coverage claims are evaluated once, in the main part
             write_ndjson(d / f"{en}.ndjson", items)
             envv[en] = str(d / f"{en}.ndjson")
         envv.update(env or {})
